@@ -1,5 +1,6 @@
 /- The fact values the C11 theorems are proved for (and the oracle runs the model with). -/
 import EinoV.Model.C11
+import EinoV.Model.C11Late
 namespace EinoV.Expected.C11
 /-- the four handler wrappers and `ProcessState` hold the state mutex around the user call;
     access through the pointer returned by the deprecated `GetState` is not covered -/
@@ -31,4 +32,8 @@ def cpSavesOwnStateOnly : Bool := true
 def nodePathFresh : Bool := true
 /-- `internalState{…}` literals in package compose: `runCtx` + one per resume branch -/
 def holderAllocSites : Nat := 3
+/-- contexts and the lock: the lock sites hand the user function their own `ctx` and go through
+    `Lock` whatever a context carries (the oracle runs `runK` with these; tied to the source by
+    `captured_ctx_takes_lock`, which needs only that no context can make a lock site skip the lock) -/
+def ctxFacts : EinoV.C11.CtxFacts := { handsPlainCtx := true, lockUnconditional := true }
 end EinoV.Expected.C11
